@@ -2,8 +2,9 @@
 # Offline build of the harness profile used by the quick checks (the checks rebuild incrementally
 # whenever /repo's working tree changed).
 set -u
-cd /verif/harness || exit 3
+ROOT=$(dirname "$(readlink -f "$0")")
+cd $ROOT/harness || exit 3
 export CARGO_NET_OFFLINE=true CARGO_TERM_COLOR=never
-mkdir -p /verif/target /verif/evidence /verif/replays
-cargo build --offline 2>&1 | tail -3
-test -x /verif/target/debug/cvh
+mkdir -p $ROOT/target $ROOT/evidence $ROOT/replays
+cargo build --offline --target-dir $ROOT/target 2>&1 | tail -3
+test -x $ROOT/target/debug/cvh
